@@ -40,6 +40,11 @@ func c10OrderOK(frames []c01Frame, delivK []string) bool {
 func c10Key(sc *c01Script, frames []c01Frame, phaseOf map[int]int) string {
 	started, ended := false, false
 	for _, f := range frames {
+		if f.K == "pub" && f.Pubs[0].Off == ^uint64(0) {
+			return "marker-pushed-as-publication" // the channel medium's insufficient-state marker
+		}
+	}
+	for _, f := range frames {
 		switch f.K {
 		case "subreply", "subpush":
 			started = true
